@@ -15,3 +15,11 @@ type Session struct {
 	Salt     int64
 	Hostname string
 }
+
+// clone returns a deep copy: the byte slices of the copy share no memory with the original.
+func (s *Session) clone() *Session {
+	c := *s
+	c.Key = append([]byte{}, s.Key...)
+	c.Hash = append([]byte{}, s.Hash...)
+	return &c
+}
